@@ -223,6 +223,52 @@ def check_increment_overflow(run, rule, fn):
     return len(narrowed)
 
 
+def R2c_result_from_division(run):
+    run.title("R2c", "the four curve primitives have no way to a result around their division: apart from the zero short-circuits (a tested value == 0), every successful "
+                     "return value is computed from the quotient / shifted product (an added `nothing to do` fast path whose bound is off by one bit prices whole units wrongly)")
+    facts = run.facts
+    DIV_CALLS = ("::div", "div_round_up_if_u256", "div_round_up_if", "checked_div", "checked_mul_shift_right", "checked_mul_shift_right_round_up_if", "checked_mul_div",
+                 "checked_mul_div_round_up", "checked_mul_div_round_up_if", "div_euclid")
+
+    def from_division(t):
+        return mentions(t, lambda s_: (s_[0] == "call" and s_[1].endswith(DIV_CALLS)) or (s_[0] == "bin" and s_[1] in ("Div", "Shr", "ShrUnchecked")))
+    n = 0
+    for name in ("try_get_amount_delta_a", "try_get_amount_delta_b", "get_next_sqrt_price_from_a_round_up", "get_next_sqrt_price_from_b_round_down"):
+        fn = facts.need_fn(TM + name)
+        run.touch(fn)
+        def raw_zero(at):
+            t = strip(at.term)      # (the raw test: `hi - lo == 0` is normalised to `hi == lo` by cond())
+            return t[0] == "bin" and t[1] in ("Eq", "Ne") and (const_val(t[2]) == 0 or const_val(t[3]) == 0) and not isinstance(const_val(t[2]), bool) and not isinstance(const_val(t[3]), bool)
+        zero_tests = [at for at in A.atoms(fn) if raw_zero(at)]
+        # every zero test answered "not zero"
+        asm = [(at, strip(at.term)[1] == "Ne") for at in zero_tests]
+        pv = prov_assuming(fn, asm) if asm else prov_of(fn)
+        bad = []
+        for bi, bb in enumerate(fn.blocks):
+            if bb["t"]["k"] != "ret" or (pv.flow is not None and pv.flow.state_in[bi] is None):
+                continue
+            for l in leaves(pv.local(0, bi, len(bb["s"]))):
+                l = strip(l)
+                if l[0] == "agg" and l[2] == "Ok":
+                    v = strip(dict(l[3])["0"])
+                    vals = []
+                    for x in leaves(v):
+                        x = strip(x)
+                        if x[0] == "agg" and x[2] == "ExceedsMax":
+                            continue
+                        vals.append(strip(dict(x[3])["0"]) if (x[0] == "agg" and x[2] == "Valid") else x)
+                    for x in vals:
+                        for y in leaves(x):
+                            if not from_division(y):
+                                bad.append(sh(y, 60))
+                elif l[0] == "call" and l[1].endswith("ok_or") and not from_division(l):
+                    bad.append(sh(l, 60))
+        n += 1
+        run.check("R2c", "result-from-division@" + name, not bad, "%s can return %s without going through its division (other than on a zero short-circuit)" % (TM + name, sorted(set(bad))[:3]),
+                  loc=fn.loc(), detail="%d zero short-circuit(s); every other result derives from the quotient" % len(zero_tests))
+    run.floor("R2c", "curve primitives", n, 4)
+
+
 def R2_rounding_primitives(run):
     run.title("R2", "the six rounding primitives add one only in context round_up = true and only behind a remainder test; the round_up-free "
                     "wrappers pass the constant their name says")
@@ -819,4 +865,4 @@ def R6_reach_target_decision(run):
               detail="!is_max || exceeds_max() => recompute" if re_at else "the first estimate is used through its Valid variant only")
 
 
-RULES = [R1_step_polarity, R1b_who_decides_overflow, R2_rounding_primitives, R3_next_price, R3b_from_b_formula, R4_fee_and_amounts, R5_exact_remainders, R6_reach_target_decision]
+RULES = [R1_step_polarity, R1b_who_decides_overflow, R2_rounding_primitives, R2c_result_from_division, R3_next_price, R3b_from_b_formula, R4_fee_and_amounts, R5_exact_remainders, R6_reach_target_decision]
